@@ -136,7 +136,7 @@ def check_one_predicate(F, run, sname, b):
             continue
         what = callee(e).split("::")[-1]
         if what == "Ok":
-            tup = peel(e["args"][0])
+            tup = current_point_tuple(b, peel(e["args"][0]))
             cur = tup.get("k") == "Tup" and len(tup["es"]) == 2 and place_through(tup["es"][0]) == "self.time" and place_through(tup["es"][1]) == "self.state"
             if not cur:
                 continue
@@ -181,6 +181,28 @@ def is_tail(body, n):
             return False
         cur = par
     return True
+
+
+def current_point_tuple(b, n):
+    """`Ok(accepted)` with `let accepted = (self.time.real(), self.state.clone())`: the tuple expression, provided neither self.time nor self.state
+    is written between the let and the use (source order inside the function; a write anywhere in between keeps the local unresolved)."""
+    if n.get("k") != "Local":
+        return n
+    order = list(walk(b["body"], into_closures=False))
+    defs = [i for i, x in enumerate(order) if x.get("k") == "LetS" and x["pat"].get("k") == "Bind" and x["pat"]["id"] == n["id"]
+            and "init" in x and "Mut)" not in x["pat"].get("mode", "")]
+    use = [i for i, x in enumerate(order) if x is n]
+    if len(defs) != 1 or not use:
+        return n
+    init = peel(order[defs[0]]["init"])
+    if init.get("k") != "Tup":
+        return n
+    for x in order[defs[0]:use[0]]:
+        if x.get("k") in ("Assign", "AssignOp") and (place(x["l"]) or "") in ("self.time", "self.state"):
+            return n
+        if x.get("k") == "MCall" and x["name"] not in ("real", "clone", "push_back", "pop_front", "clear") and place(peel(x["recv"])) in ("self", "self.state", "self.time"):
+            return n
+    return init
 
 
 def place_through(n):
